@@ -3,6 +3,7 @@ package checks
 import (
 	"context"
 	"fmt"
+	"os"
 	"strings"
 	"testing"
 	"time"
@@ -131,27 +132,26 @@ func c10Concurrent(t *testing.T, c *vcore.Ctx, b *world.Backend, snap0 *world.Sn
 	}
 	var jobs []job
 	pairs := c10cPairs()
-	long := map[int]bool{2: true, 3: true, 9: true}
-	short := map[int]bool{4: true, 7: true, 8: true}
+	quick := map[int]bool{4: true, 5: true, 8: true} // three with few scheduling points (about 54 000 schedules at bound 1)
 	for i, ths := range pairs {
-		if long[i] && !c.Thorough() {
+		if !quick[i] && !c.Thorough() {
 			continue
 		}
 		jobs = append(jobs, job{ths, 1})
 	}
 	if c.Thorough() {
-		for i, ths := range pairs {
-			if short[i] {
-				jobs = append(jobs, job{ths, 2})
-			}
-		}
+		jobs = append(jobs, job{pairs[4], 2}) // remove || remove also with two preemptions
 	}
 	c.Bound("concurrent_part_scenarios", len(jobs))
-	c.Bound("concurrent_part_preemption_bound_completed", map[bool]string{false: "1", true: "1 (all scenarios), 2 (three shortest)"}[c.Thorough()])
-	for i, j := range jobs {
-		if !c.Mine(int64(i)) {
-			continue
-		}
+	c.Bound("concurrent_part_preemption_bound_completed", map[bool]string{false: "1", true: "1 (all scenarios), 2 (remove||remove)"}[c.Thorough()])
+	if dbg := os.Getenv("VERIF_C10C_ONLY"); dbg != "" { // debugging aid: one scenario, chosen bound
+		var idx, bd int
+		fmt.Sscanf(dbg, "%d:%d", &idx, &bd)
+		jobs = []job{{pairs[idx], bd}}
+	}
+	for _, j := range jobs {
+		// every shard runs every scenario: exploreSchedules divides the subtrees below the root execution
+		// among the shards itself (dividing the scenarios as well would leave most subtrees unexplored)
 		cc := c10cCase{Threads: j.ths, Bound: j.bound}
 		if c.Expired() {
 			c.CapHit("budget reached in the concurrent part")
@@ -200,6 +200,13 @@ func c10cCheck(c *vcore.Ctx, b *world.Backend, cc *c10cCase, x *schedRun, choice
 		return
 	}
 	v := b.View(false)
+	if os.Getenv("VERIF_DEBUG_SCHED") != "" && npre == 0 && strings.HasPrefix(pair, os.Getenv("VERIF_DEBUG_SCHED")) {
+		menus := ""
+		for i := 10; i < 16 && i < len(x.Decisions); i++ {
+			menus += fmt.Sprintf(" [%d] %v", i, x.Decisions[i].Menu)
+		}
+		c.Note("default schedule of %s: MENUS%s", pair, menus)
+	}
 	c.Outcome("concurrent " + pair + ": " + c22Results(x, len(cc.Threads)))
 	for _, n := range world.SortedStrings(keysOf(v.Nodes)) {
 		if d := v.CompareUsage(n); len(d) > 0 {
